@@ -233,7 +233,7 @@ def _worker(prog, entry, owner):
           not f.npath.split("::" + entry)[1]]
     if len(es) != 1:
         raise CheckerError("anchor %s::%s matched %d functions" % (owner, entry, len(es)))
-    e = es[0]
+    e = prog.default_args_worker(es[0])       # `from_sexpr(s)` as the default path of `from_sexpr_with_mapping(s, &s.variable_mapping())`
     cands = []
     for f in prog.lib_fns:
         if f is e or "{closure" in f.npath:
